@@ -234,3 +234,7 @@ def expected(model):
 
 def frames(model):
     return [_expect(fr) for fr in model["frames"]]
+
+
+# Classes that are generated but NOT asserted by C03 (triage decisions, see DESIGN.md section 7): class -> reason
+NOT_ASSERTED = {'alt_quotes': '[] {} quoting: ASE-specific extension, judgement', 'quoted_string_spaces': 'multi-word quoted strings become arrays: pinned by the repository tests (mgo.xyz)', 'short_strings': 'Y/N parsed as booleans: judgement'}
